@@ -75,10 +75,11 @@ type lcSpec struct {
 	// middlewares; mwto: a short TimeoutMiddleware ends the abandoned call) ; clone | clone2 (the scenario runs on a
 	// Clone of the warmed-up client; clone2: the original stays open with an exchange pending) ; cluster (DialCluster)
 	n      int    // c10: callers ; rty: number of connections the server drops ; cls: 0 sync / 1 async Close ; win: polling goroutines
-	pt     string // yield point (short name), timeout | inWrite | queued (c10), or "-"
+	pt     string // yield point (short name), timeout | inWrite | queued | pre (c10; pre: the context has ended before the call), or "-"
 	srv    string // c10: when the victim's request is answered: early | late | never ; rty: how the server drops: eof | closed
 	faults []*lcFault
-	next   string // flt: call | calls3 | close | cclose | conc ; c10: - | dl (deadline instead of cancel) | twice | dltwice
+	next   string // flt: call | calls3 | close | cclose | conc ; c10: - | dl (deadline instead of cancel) | twice | dltwice,
+	// optionally followed by ~<kind of the abandoned caller's context> (cli_ctx.go)
 	seed   int    // > 0: random perturbation at the yield points
 }
 
@@ -1044,16 +1045,23 @@ func lcRunC10(e *lcEnv) {
 	}
 	spec := e.spec
 	abandoned := map[string]bool{}
-	deadline := strings.HasPrefix(spec.next, "dl")
+	// next = <base>[~<kind of the abandoned caller's context>] (cli_ctx.go)
+	base, kind, _ := strings.Cut(spec.next, "~")
+	if kind != "" && !lcCtxKindKnown(kind) {
+		e.res.Fail = "unknown context kind " + kind
+		e.finish(nil)
+		return
+	}
+	deadline := strings.HasPrefix(base, "dl")
 	rounds := 1
-	if strings.HasSuffix(spec.next, "twice") {
+	if strings.HasSuffix(base, "twice") {
 		rounds = 2
 	}
 	e.arm(spec.faults...)
 	reached := true
 	var outcomes []string
 	for round := 0; round < rounds; round++ {
-		ok, vo := e.c10Round(round, deadline, abandoned)
+		ok, vo := e.c10Round(round, deadline, kind, abandoned)
 		reached = reached && ok
 		outcomes = append(outcomes, vo)
 	}
@@ -1062,6 +1070,9 @@ func lcRunC10(e *lcEnv) {
 	e.plain(p2, true)
 	e.res.Nontrivial = reached
 	e.res.Counts = append(e.res.Counts, "c10.victim="+strings.Join(outcomes, "+"), "c10.point="+spec.pt, fmt.Sprintf("c10.reached=%v", reached))
+	if kind != "" {
+		e.res.Counts = append(e.res.Counts, "c10.ctx-kind="+kind)
+	}
 	if !reached {
 		e.res.Counts = append(e.res.Counts, fmt.Sprintf("c10.unreached=%s/%s/%s/faults=%d", spec.pt, spec.srv, spec.next, len(spec.faults)))
 	}
@@ -1070,7 +1081,7 @@ func lcRunC10(e *lcEnv) {
 
 // c10Round: one abandoned call (and its concurrent callers). Returns whether the intended point was reached and
 // the victim's outcome.
-func (e *lcEnv) c10Round(round int, deadline bool, abandoned map[string]bool) (bool, string) {
+func (e *lcEnv) c10Round(round int, deadline bool, kind string, abandoned map[string]bool) (bool, string) {
 	spec := e.spec
 	n := spec.n
 	// with faults armed (first round): the context ends in the attempt that FOLLOWS the fault, i.e. at the first
@@ -1092,8 +1103,21 @@ func (e *lcEnv) c10Round(round int, deadline bool, abandoned map[string]bool) (b
 		e.srv.silent[vid] = true
 		e.srv.mu.Unlock()
 	}
-	vctx := newLcCallerCtx(deadline)
-	var ctx context.Context = vctx
+	vctx := newLcVictim(kind, deadline, spec.pt == "pre")
+	defer vctx.stop()
+	var ctx context.Context = vctx.ctx
+	// a context of a timer kind may end before the call has got to the point (a slow machine): the scenario is then
+	// one of "the context ended at some instant", judged by the same oracles, but not counted as having hit the point
+	// at: the director was at the point when it ended the context (the abandoned call may return before the director
+	// has had the time to say so through `reached`)
+	var early, at atomic.Bool
+	fireAtPoint := func() {
+		if vctx.ended() {
+			early.Store(true)
+		}
+		at.Store(true)
+		vctx.fire()
+	}
 	reached := make(chan struct{})
 	release := make(chan struct{})
 	var once sync.Once
@@ -1135,7 +1159,7 @@ func (e *lcEnv) c10Round(round int, deadline bool, abandoned map[string]bool) (b
 		ok := e.srv.seenCount(hid) > 0
 		v := e.start(ctx, vid)
 		time.Sleep(lcPause)
-		vctx.fire()
+		fireAtPoint()
 		time.Sleep(lcPause)
 		fl := followers(ph, n-1)
 		time.Sleep(2 * lcPause)
@@ -1153,14 +1177,30 @@ func (e *lcEnv) c10Round(round int, deadline bool, abandoned map[string]bool) (b
 		}
 		checkFollowers(ph, fl)
 		e.srv.open(vid)
-		return ok, v.outcome
+		return ok && !early.Load(), v.outcome
 	}
 
 	switch spec.pt {
+	case "pre":
+		// the context has already ended (cancelled, or its deadline has passed) when the call is issued
+		vctx.fire()
+		at.Store(true)
+		hit()
 	case "timeout":
 		if spec.entry == "mwto" {
 			// the deadline is the one the library's TimeoutMiddleware puts on the call
 			ctx = context.Background()
+		} else if kind != "" {
+			// a context of the given kind ends while the caller waits for the response: by its own timer, or, for the
+			// kinds that are cancelled, some time after the request has reached the server
+			go func() {
+				dl := time.Now().Add(lcWaitEvent)
+				for e.srv.seenCount(vid) == 0 && !vctx.ended() && time.Now().Before(dl) {
+					time.Sleep(50 * time.Microsecond)
+				}
+				time.Sleep(2 * lcPause)
+				vctx.fire()
+			}()
 		} else {
 			c2, cancel := context.WithTimeout(context.Background(), max(15*time.Millisecond, 20*lcPause))
 			defer cancel()
@@ -1184,7 +1224,7 @@ func (e *lcEnv) c10Round(round int, deadline bool, abandoned map[string]bool) (b
 				return
 			}
 			// the write loop is inside Write, the caller waits in send for its outcome
-			vctx.fire()
+			fireAtPoint()
 			hit()
 			select {
 			case <-victimDone:
@@ -1214,7 +1254,7 @@ func (e *lcEnv) c10Round(round int, deadline bool, abandoned map[string]bool) (b
 					time.Sleep(50 * time.Microsecond)
 				}
 			}
-			vctx.fire()
+			fireAtPoint()
 			hit()
 			if spec.pt == "beforeRx" {
 				// the reader is held until the abandoned caller has returned
@@ -1270,7 +1310,7 @@ func (e *lcEnv) c10Round(round int, deadline bool, abandoned map[string]bool) (b
 	e.srv.mu.Lock()
 	e.srv.onRecv = nil
 	e.srv.mu.Unlock()
-	return ok, v.outcome
+	return (ok || at.Load()) && !early.Load(), v.outcome
 }
 
 // writeOnly: every armed fault is a failure of a Write (not "server closes after replying"). The call that gets a
@@ -2032,6 +2072,53 @@ func lcSpecs(ctx *Ctx, dry lcDry) []string {
 					faults: []*lcFault{{dir: 'r', conn: 0, k: r0 - 1, kind: "eof", timing: "data"}}})
 			}
 		}
+		// (a') the KIND of the abandoned caller's context (cli_ctx.go: WithCancel, WithTimeout, WithDeadline, the *Cause
+		// variants with a caller-chosen cause, a cause inherited through WithValue / WithCancel links, WithoutCancel over an
+		// ancestor that has ended, a caller's type embedding a context, a caller's implementation and a standard child of
+		// it) x every point at which the director ends a context, and a context that has ended before the call
+		{
+			type ps struct{ pt, srv string }
+			combos := []ps{{"loaded", "late"}, {"afterSend", "early"}, {"afterSend", "late"}, {"beforeRx", "early"},
+				{"inWrite", "late"}, {"queued", "early"}, {"pre", "early"}, {"timeout", "never"}}
+			retryPts := []string{"afterSend"}
+			if ctx.Thor {
+				combos = nil
+				for _, pt := range []string{"loaded", "afterSend", "inWrite", "timeout"} {
+					for _, srv := range []string{"early", "late", "never"} {
+						combos = append(combos, ps{pt, srv})
+					}
+				}
+				combos = append(combos, ps{"beforeRx", "early"}, ps{"queued", "early"}, ps{"pre", "early"})
+				retryPts = []string{"loaded", "afterSend", "inWrite", "beforeReconnect"}
+			}
+			for _, kind := range lcCtxKinds {
+				for _, c := range combos {
+					add(&lcSpec{fam: "c10", n: 2, pt: c.pt, srv: c.srv, next: "-~" + kind, seed: seed})
+				}
+				// a second call abandoned the same way follows the first; three callers
+				add(&lcSpec{fam: "c10", n: 2, pt: "afterSend", srv: "late", next: "twice~" + kind, seed: seed})
+				if ctx.Thor {
+					add(&lcSpec{fam: "c10", n: 2, pt: "inWrite", srv: "never", next: "twice~" + kind, seed: seed})
+					add(&lcSpec{fam: "c10", n: 3, pt: "afterSend", srv: "late", next: "-~" + kind, seed: seed})
+					add(&lcSpec{fam: "c10", n: 4, pt: "inWrite", srv: "late", next: "-~" + kind, seed: seed})
+				}
+				// in the retry that follows a reconnect
+				for _, pt := range retryPts {
+					add(&lcSpec{fam: "c10", n: 2, pt: pt, srv: "early", next: "-~" + kind, seed: seed,
+						faults: []*lcFault{{dir: 'r', conn: 0, k: r0 - 1, kind: "eof", timing: "data"}}})
+				}
+			}
+			// through the other entry points (the middlewares derive contexts of their own from the caller's)
+			for _, entry := range []string{"batch", "then", "rt", "req", "mw", "clone2", "cluster"} {
+				for _, kind := range []string{"cc", "tc", "pc", "emb"} {
+					add(&lcSpec{fam: "c10", entry: entry, n: 2, pt: "afterSend", srv: "late", next: "-~" + kind, seed: seed})
+					if ctx.Thor || entry == "mw" {
+						add(&lcSpec{fam: "c10", entry: entry, n: 2, pt: "inWrite", srv: "late", next: "-~" + kind, seed: seed})
+						add(&lcSpec{fam: "c10", entry: entry, n: 2, pt: "beforeRx", srv: "early", next: "-~" + kind, seed: seed})
+					}
+				}
+			}
+		}
 		// (b) C11: every operation of the exchange x kind x next action
 		var pts []*lcFault
 		for k := w0; k < w1; k++ {
@@ -2542,7 +2629,7 @@ func lcConfirm(ctx *Ctx, all []*lcResult) []*lcResult {
 func init() {
 	register(&Engine{
 		Name: "lts.cli",
-		Rule: "real kmipclient.Client over an in-memory fault-injecting transport and a scripted echo server (answers possibly out of order), verif yield points driven by a director; I/O indices, time scale and retry budget measured by dry runs; (a) C10: N in {2,3,4} concurrent callers, one caller's context ended (cancellation / deadline) exactly at cli.send.loaded / cli.roundtrip.afterSend / cli.read.beforeRx, while its request is inside Write, while it is queued for the client behind a call whose response is late, or by a timer; its response early / late / never; the same in the retry that follows a reconnect (and at cli.beforeReconnect); a second abandoned call after the first; then a further call; (b) C11: after a warm-up exchange, every Read and Write index of the next exchange x {EOF, closed, reset, timeout, unexpected EOF, partial message, short write, server closes after replying, write-only reset/closed, failure reported after delivery} x {when invoked, when data arrives} x next action {call, 3 calls, Close, Close during the pending call, a second caller queued for the client}, pairs of faults hitting the reconnection (dial, write, read); (c) every I/O operation of Dial's version negotiation; (d) Close() at each yield point of a pending call (in line and concurrently); (e) server dropping 1..budget+1 successive connections (EOF and closed); (f) a write error with a queued caller while the write loop is held at cli.write.reported (window of 2c3eae7, directed; fallbacks: the connection context's mutex held / polled); (g) a dial that blocks until the caller's context ends; a second caller arriving during the re-dial; a call issued while Close() is closing the connection; Dial giving up a healthy connection; (h) a selection of (a)-(g) with the calls made through Batch, an Executor.Then chain, Roundtrip, Request, on a client with the library's middlewares (also: the abandoned call ended by TimeoutMiddleware), on a Clone (original closed / original open with an exchange pending), on a DialCluster client; server-side oracle: one exchange at a time on a connection; the retried error kinds are observed by dry runs; race pass: the Close/reconnect scenarios under the race detector; scenarios run in child processes (a crash is a violation) and are repeated under random perturbation at the yield points; timing-only verdicts and non-member outcomes are confirmed by re-runs; distinct = distinct scenario+outcome",
+		Rule: "real kmipclient.Client over an in-memory fault-injecting transport and a scripted echo server (answers possibly out of order), verif yield points driven by a director; I/O indices, time scale and retry budget measured by dry runs; (a) C10: N in {2,3,4} concurrent callers, one caller's context ended (cancellation / deadline) exactly at cli.send.loaded / cli.roundtrip.afterSend / cli.read.beforeRx, while its request is inside Write, while it is queued for the client behind a call whose response is late, or by a timer; its response early / late / never; the same in the retry that follows a reconnect (and at cli.beforeReconnect); a second abandoned call after the first; then a further call; the abandoned caller's context of every KIND (WithCancel, WithTimeout and WithDeadline ended by their timer or by their cancel function, WithCancelCause / WithTimeoutCause / WithDeadlineCause with a caller-chosen cause, a nil cause, a cause wrapping a transport error, a cause inherited through WithValue / WithCancel links, WithoutCancel over an ancestor that has ended, a caller's type embedding a context, a caller's own implementation of context.Context and a standard child of it) ended at each of those points, while the caller waits for the response, and before the call is issued, also in the retry after a reconnect, twice in a row and through the other entry points; (b) C11: after a warm-up exchange, every Read and Write index of the next exchange x {EOF, closed, reset, timeout, unexpected EOF, partial message, short write, server closes after replying, write-only reset/closed, failure reported after delivery} x {when invoked, when data arrives} x next action {call, 3 calls, Close, Close during the pending call, a second caller queued for the client}, pairs of faults hitting the reconnection (dial, write, read); (c) every I/O operation of Dial's version negotiation; (d) Close() at each yield point of a pending call (in line and concurrently); (e) server dropping 1..budget+1 successive connections (EOF and closed); (f) a write error with a queued caller while the write loop is held at cli.write.reported (window of 2c3eae7, directed; fallbacks: the connection context's mutex held / polled); (g) a dial that blocks until the caller's context ends; a second caller arriving during the re-dial; a call issued while Close() is closing the connection; Dial giving up a healthy connection; (h) a selection of (a)-(g) with the calls made through Batch, an Executor.Then chain, Roundtrip, Request, on a client with the library's middlewares (also: the abandoned call ended by TimeoutMiddleware), on a Clone (original closed / original open with an exchange pending), on a DialCluster client; server-side oracle: one exchange at a time on a connection; the retried error kinds are observed by dry runs; race pass: the Close/reconnect scenarios under the race detector; scenarios run in child processes (a crash is a violation) and are repeated under random perturbation at the yield points; timing-only verdicts and non-member outcomes are confirmed by re-runs; distinct = distinct scenario+outcome",
 		Run:  runLtsCli,
 	})
 }
